@@ -46,6 +46,9 @@ static void body(int t){
 int main(int argc,char**argv){
 	static char obuf[1<<22]; setvbuf(stdout,obuf,_IOFBF,sizeof obuf);
 	if(argc<3) return 9;
+#ifdef FUTEX_ENOSYS
+	{ extern int vs_futex_enosys; vs_futex_enosys = 1; }
+#endif
 #ifdef NO_MEMBARRIER
 	vs_membarrier_available = 0;
 #endif
